@@ -771,6 +771,14 @@ class H2Client(_Endpoint):
             data = self.conn.data_to_send()
             if data:
                 await write_pieces(self.tls, data, step.get("cuts", ()), step.get("gaps", ()))
+                # a flight may be cut into pieces that are delivered later: the request has only ENDED for the proxy
+                # when the last byte of the flight that carries its END_STREAM has been delivered
+                for fr in step.get("frames", []):
+                    rec = self.sent.get(fr.get("s"))
+                    if rec is not None and rec["ended"] and rec.get("t_end_emitted") is None and \
+                            (fr.get("end") or fr.get("t") in ("T", "E")):
+                        rec["t_end_emitted"] = rec["t_end"]
+                        rec["t_end"] = self.now()
         self.pump()
 
     async def _await_window(self, fr):
